@@ -10,9 +10,11 @@ import (
 	"bytes"
 	"encoding/hex"
 	"fmt"
+	"runtime"
 	"runtime/metrics"
 	"strconv"
 	"strings"
+	"sync"
 	"unsafe"
 
 	"github.com/btcsuite/btcd/btcutil/v2"
@@ -80,6 +82,8 @@ func (P) Facts() []core.Fact {
 	add("sizeofHash", int64(unsafe.Sizeof(chainhash.Hash{})))
 	add("sizeofSlice", int64(unsafe.Sizeof([]byte{})))
 	add("sizeofPointer", int64(unsafe.Sizeof(&wire.TxIn{})))
+	v2ids, v2cmds := wire.VerifV2Table()
+	fs = append(fs, core.Fact{Name: "v2Ids", Value: v2ids}, core.Fact{Name: "v2Commands", Value: v2cmds})
 	// command strings, in the order of the driver's table
 	fs = append(fs, core.Fact{Name: "commands", Value: commandList()})
 	// MaxPayloadLength of every command at the current protocol version and at version 0
@@ -421,6 +425,16 @@ func (P) Exec(line string) string {
 			same = bytes.Equal(w.Bytes(), b[:len(b)-rd.Len()])
 		}
 		return fmt.Sprintf("ok %s %s %s %d %s", m.Command(), dump(m, pver), re, rd.Len(), canonTok(same)) + allocTok(al)
+	case "v2":
+		return execV2(f)
+	case "api":
+		return execAPI(f)
+	case "txapi":
+		return execTxAPI(mustHex(f[2]))
+	case "blkapi":
+		return execBlkAPI(mustHex(f[2]))
+	case "multi":
+		return execMulti(f[2], strings.Split(f[3], "|"))
 	case "blk":
 		return execBlk(f[2], mustHex(f[3]), strings.Split(f[4], ","))
 	case "utx":
@@ -475,6 +489,35 @@ func (P) ClassifyMismatch(line, goOut, leanOut string) string {
 		g := strings.Fields(goOut)
 		if len(g) > 1 {
 			kind = g[1]
+		}
+	}
+	if f[1] == "v2" {
+		g := strings.Fields(goOut)
+		if len(g) > 1 {
+			kind = g[1]
+		}
+		if strings.HasPrefix(goOut, "err") && strings.HasPrefix(leanOut, "ok wtxidrelay u ") {
+			return "F-C08-c"
+		}
+		// the 12-byte form of a command that owns a short id is accepted and re-written in the short form
+		if strings.HasPrefix(f[4], "00") && kind != "version" && kind != "addrv2" &&
+			strings.Contains(goOut, " canon=0") && strings.Replace(goOut, " canon=0", " canon=1", 1) == leanOut {
+			if ids, cmds := wire.VerifV2Table(); len(ids) > 0 {
+				for _, c := range cmds {
+					if c == kind {
+						return "F-C08-f"
+					}
+				}
+			}
+		}
+	}
+	if f[1] == "api" {
+		g := strings.Fields(goOut)
+		if len(g) > 1 {
+			kind = g[1]
+		}
+		if strings.HasPrefix(goOut, "err") && strings.HasPrefix(leanOut, "ok wtxidrelay u ") {
+			return "F-C08-c"
 		}
 	}
 	// wtxidrelay can be written but not read back by ReadMessage
@@ -653,4 +696,369 @@ func execUtx(ctor string, raw []byte, ops []string) string {
 		}
 	}
 	return strings.Join(out, "|")
+}
+
+// ---------------------------------------------------------------- v2 framing, entry-point agreement, helper APIs
+
+func execV2(f []string) string {
+	pv, _ := strconv.ParseUint(f[2], 10, 32)
+	enc := parseEnc(f[3])
+	b := mustHex(f[4])
+	in := append([]byte{}, b...)
+	m, payload, err := wire.ReadV2MessageN(in, uint32(pv), enc)
+	if err != nil {
+		return "err"
+	}
+	if !bytes.Equal(in, b) {
+		return "input-mutated"
+	}
+	var w bytes.Buffer
+	n, err := wire.WriteV2MessageN(&w, m, uint32(pv), enc)
+	re, same := "reenc-err", false
+	if err == nil {
+		if n != w.Len() {
+			return "written-count-wrong"
+		}
+		re = hx(w.Bytes())
+		same = bytes.Equal(w.Bytes(), b)
+		// the returned payload is the message's encoding
+		if !bytes.HasSuffix(b, payload) {
+			return "payload-not-suffix"
+		}
+	}
+	return fmt.Sprintf("ok %s %s %s %s", m.Command(), dump(m, uint32(pv)), re, canonTok(same))
+}
+
+type readRes struct {
+	n       int
+	msg     wire.Message
+	payload []byte
+	err     error
+}
+
+func sameRead(a, b readRes, pver uint32) bool {
+	if (a.err == nil) != (b.err == nil) {
+		return false
+	}
+	if a.err != nil {
+		return true
+	}
+	return a.n == b.n && a.msg.Command() == b.msg.Command() && dump(a.msg, pver) == dump(b.msg, pver) && bytes.Equal(a.payload, b.payload)
+}
+
+func execAPI(f []string) string {
+	pv, _ := strconv.ParseUint(f[2], 10, 32)
+	pver := uint32(pv)
+	nt, _ := strconv.ParseUint(f[3], 10, 32)
+	net := wire.BitcoinNet(nt)
+	b := mustHex(f[4])
+	var prim readRes
+	rd := bytes.NewReader(b)
+	prim.n, prim.msg, prim.payload, prim.err = wire.ReadMessageWithEncodingN(rd, pver, net, wire.BaseEncoding)
+	rest := rd.Len()
+	agree := true
+	{
+		var r readRes
+		r.n, r.msg, r.payload, r.err = wire.ReadMessageN(bytes.NewReader(b), pver, net)
+		agree = agree && sameRead(prim, r, pver)
+		r = readRes{n: prim.n}
+		r.msg, r.payload, r.err = wire.ReadMessage(bytes.NewReader(b), pver, net)
+		agree = agree && sameRead(prim, r, pver)
+		if len(b) >= 16 {
+			rd2 := bytes.NewReader(b[16:])
+			var r2 readRes
+			r2.n, r2.msg, r2.payload, r2.err = wire.ReadPartialMessageWithEncodingN(rd2, pver, net, wire.BaseEncoding, b[:16])
+			if prim.err == nil {
+				// ReadPartial counts the header as read in full
+				r2.n = r2.n + 0
+				agree = agree && r2.err == nil && r2.msg.Command() == prim.msg.Command() && dump(r2.msg, pver) == dump(prim.msg, pver) && bytes.Equal(r2.payload, prim.payload) && rd2.Len() == rest
+			} else {
+				agree = agree && r2.err != nil
+			}
+		}
+	}
+	if prim.err != nil {
+		if !agree {
+			return "err api=DISAGREE"
+		}
+		return "err a=ok api=agree"
+	}
+	var w1, w2, w3 bytes.Buffer
+	n1, e1 := wire.WriteMessageWithEncodingN(&w1, prim.msg, pver, net, wire.BaseEncoding)
+	n2, e2 := wire.WriteMessageN(&w2, prim.msg, pver, net)
+	e3 := wire.WriteMessage(&w3, prim.msg, pver, net)
+	if (e1 == nil) != (e2 == nil) || (e1 == nil) != (e3 == nil) || n1 != n2 || !bytes.Equal(w1.Bytes(), w2.Bytes()) || !bytes.Equal(w1.Bytes(), w3.Bytes()) || (e1 == nil && n1 != w1.Len()) {
+		agree = false
+	}
+	re, same := "reenc-err", false
+	if e1 == nil {
+		re = hx(w1.Bytes())
+		same = bytes.Equal(w1.Bytes(), b[:len(b)-rest])
+	}
+	a := "agree"
+	if !agree {
+		a = "DISAGREE"
+	}
+	return fmt.Sprintf("ok %s %s %s %d %s a=ok api=%s", prim.msg.Command(), dump(prim.msg, pver), re, rest, canonTok(same), a)
+}
+
+func intList(l []int) string {
+	if len(l) == 0 {
+		return "-"
+	}
+	s := make([]string, len(l))
+	for i, v := range l {
+		s[i] = strconv.Itoa(v)
+	}
+	return strings.Join(s, ",")
+}
+
+// scribble overwrites every byte a transaction owns (scripts, witness items, hashes).
+func scribble(t *wire.MsgTx) {
+	for _, in := range t.TxIn {
+		for i := range in.SignatureScript {
+			in.SignatureScript[i] ^= 0xa5
+		}
+		for _, w := range in.Witness {
+			for i := range w {
+				w[i] ^= 0xa5
+			}
+		}
+		in.PreviousOutPoint.Hash[0] ^= 0xa5
+		in.PreviousOutPoint.Index ^= 1
+		in.Sequence ^= 1
+	}
+	for _, o := range t.TxOut {
+		for i := range o.PkScript {
+			o.PkScript[i] ^= 0xa5
+		}
+		o.Value ^= 1
+	}
+	t.Version ^= 1
+	t.LockTime ^= 1
+}
+
+func serTx(t *wire.MsgTx) []byte {
+	var w bytes.Buffer
+	t.Serialize(&w)
+	return w.Bytes()
+}
+
+func execTxAPI(raw []byte) string {
+	var t wire.MsgTx
+	rd := bytes.NewReader(raw)
+	if err := t.Deserialize(rd); err != nil || rd.Len() > 0 {
+		return "err"
+	}
+	orig := serTx(&t)
+	var nw bytes.Buffer
+	if err := t.SerializeNoWitness(&nw); err != nil {
+		return "nw-err"
+	}
+	dnw := "ok"
+	{
+		var t2 wire.MsgTx
+		r2 := bytes.NewReader(nw.Bytes())
+		var again bytes.Buffer
+		if err := t2.DeserializeNoWitness(r2); err != nil || r2.Len() > 0 {
+			dnw = "err"
+		} else if t2.SerializeNoWitness(&again); !bytes.Equal(again.Bytes(), nw.Bytes()) || t2.TxHash() != t.TxHash() {
+			dnw = "differs"
+		}
+	}
+	locs := intList(t.PkScriptLocs())
+	cp := t.Copy()
+	cplocs := intList(cp.PkScriptLocs())
+	copyTok := "deep"
+	if !bytes.Equal(serTx(cp), orig) || cp.TxHash() != t.TxHash() || cp.WitnessHash() != t.WitnessHash() {
+		copyTok = "differs"
+	} else {
+		scribble(cp)
+		if !bytes.Equal(serTx(&t), orig) {
+			copyTok = "shallow"
+		}
+	}
+	// decoded scripts share one backing array: growing one must not run into its neighbour
+	alias := "none"
+	for _, in := range t.TxIn {
+		_ = append(in.SignatureScript, 0xaa, 0xbb)
+		for _, w := range in.Witness {
+			_ = append(w, 0xaa, 0xbb)
+		}
+	}
+	for _, o := range t.TxOut {
+		_ = append(o.PkScript, 0xaa, 0xbb)
+	}
+	if !bytes.Equal(serTx(&t), orig) {
+		alias = "clobbered"
+	}
+	si, so, sw := 0, 0, 0
+	for _, in := range t.TxIn {
+		si += in.SerializeSize()
+		sw += in.Witness.SerializeSize()
+	}
+	for _, o := range t.TxOut {
+		so += o.SerializeSize()
+	}
+	return fmt.Sprintf("ok nw=%s ss=%d dnw=%s locs=%s cplocs=%s copy=%s txid=%s alias=%s sz=%d/%d/%d",
+		hex.EncodeToString(nw.Bytes()), t.SerializeSizeStripped(), dnw, locs, cplocs, copyTok, t.TxID(), alias, si, so, sw)
+}
+
+func execBlkAPI(raw []byte) string {
+	var b wire.MsgBlock
+	rd := bytes.NewReader(raw)
+	if err := b.Deserialize(rd); err != nil || rd.Len() > 0 {
+		return "err"
+	}
+	ser := func(m *wire.MsgBlock) []byte {
+		var w bytes.Buffer
+		m.Serialize(&w)
+		return w.Bytes()
+	}
+	orig := ser(&b)
+	var nw bytes.Buffer
+	if err := b.SerializeNoWitness(&nw); err != nil {
+		return "nw-err"
+	}
+	dnw := "ok"
+	{
+		var b2 wire.MsgBlock
+		r2 := bytes.NewReader(nw.Bytes())
+		var again bytes.Buffer
+		if err := b2.DeserializeNoWitness(r2); err != nil || r2.Len() > 0 {
+			dnw = "err"
+		} else if b2.SerializeNoWitness(&again); !bytes.Equal(again.Bytes(), nw.Bytes()) || b2.BlockHash() != b.BlockHash() {
+			dnw = "differs"
+		}
+	}
+	var b3 wire.MsgBlock
+	locs, err := b3.DeserializeTxLoc(bytes.NewBuffer(append([]byte{}, raw...)))
+	ls := "err"
+	if err == nil {
+		ls = strings.Join(mapStr(len(locs), func(i int) string { return fmt.Sprintf("%d:%d", locs[i].TxStart, locs[i].TxLen) }), ";")
+		if !bytes.Equal(ser(&b3), orig) {
+			ls = "txloc-decode-differs"
+		}
+	}
+	h := b.BlockHash()
+	ths, _ := b.TxHashes()
+	var sb strings.Builder
+	for _, t := range ths {
+		sb.WriteString(hex.EncodeToString(t[:]))
+	}
+	cp := b.Copy()
+	copyTok := "deep"
+	if !bytes.Equal(ser(cp), orig) {
+		copyTok = "differs"
+	} else {
+		for _, t := range cp.Transactions {
+			scribble(t)
+		}
+		cp.Header.Nonce ^= 1
+		cp.Header.PrevBlock[0] ^= 1
+		if !bytes.Equal(ser(&b), orig) {
+			copyTok = "shallow"
+		}
+	}
+	txs := b.Transactions
+	b.ClearTransactions()
+	clear := hex.EncodeToString(ser(&b))
+	for _, t := range txs {
+		b.AddTransaction(t)
+	}
+	add := "same"
+	if !bytes.Equal(ser(&b), orig) {
+		add = "differs"
+	}
+	nwh := chainhash.DoubleHashB(nw.Bytes())
+	return fmt.Sprintf("ok nwlen=%d nwh=%s ss=%d dnw=%s locs=%s hash=%s txh=%s copy=%s clear=%s add=%s",
+		nw.Len(), hex.EncodeToString(nwh), b.SerializeSizeStripped(), dnw, ls, hex.EncodeToString(h[:]), sb.String(), copyTok, clear, add)
+}
+
+// decQ is the dec op without the allocation verdict (used where several decodes overlap).
+func decQ(sub string, keep *any) func() string {
+	p := strings.Split(sub, "/")
+	if len(p) != 4 {
+		return func() string { return "bad-op" }
+	}
+	kind := p[0]
+	pv, _ := strconv.ParseUint(p[1], 10, 32)
+	pver := uint32(pv)
+	enc := parseEnc(p[2])
+	b := mustHex(p[3])
+	m, _, ok := emptyOf(kind)
+	if !ok {
+		return func() string { return "bad-op" }
+	}
+	buf := bytes.NewBuffer(append([]byte{}, b...))
+	var err error
+	switch v := m.(type) {
+	case *wire.BlockHeader:
+		err = v.BtcDecode(buf, pver, enc)
+	case wire.Message:
+		err = v.BtcDecode(buf, pver, enc)
+	}
+	rest := buf.Len()
+	// the observation is taken later, by the caller
+	return func() string {
+		if err != nil {
+			return "err"
+		}
+		var w bytes.Buffer
+		var e2 error
+		switch v := m.(type) {
+		case *wire.BlockHeader:
+			e2 = v.BtcEncode(&w, pver, enc)
+		case wire.Message:
+			e2 = v.BtcEncode(&w, pver, enc)
+		}
+		re := "reenc-err"
+		if e2 == nil {
+			re = hx(w.Bytes())
+		}
+		return fmt.Sprintf("ok %s %s %d", dump(m, pver), re, rest) + extra(m)
+	}
+}
+
+// execMulti: mode "s" decodes every sub-case first and observes all results afterwards (a result must not be
+// disturbed by later decodes: script pool, free lists); mode "c" runs the sub-cases in concurrent goroutines,
+// three times each at staggered starts.
+func execMulti(mode string, subs []string) string {
+	out := make([]string, len(subs))
+	if mode == "s" {
+		obs := make([]func() string, len(subs))
+		for i, s := range subs {
+			obs[i] = decQ(s, nil)
+		}
+		for i := len(subs) - 1; i >= 0; i-- {
+			out[i] = obs[i]()
+		}
+		return strings.Join(out, "#")
+	}
+	var wg sync.WaitGroup
+	for i, s := range subs {
+		wg.Add(1)
+		go func(i int, s string) {
+			defer wg.Done()
+			defer func() {
+				if r := recover(); r != nil {
+					out[i] = "panic"
+				}
+			}()
+			first := ""
+			for k := 0; k < 3+i%3; k++ {
+				o := decQ(s, nil)
+				runtime.Gosched()
+				got := o()
+				if k == 0 {
+					first = got
+				} else if got != first {
+					first = "unstable"
+				}
+			}
+			out[i] = first
+		}(i, s)
+	}
+	wg.Wait()
+	return strings.Join(out, "#")
 }
